@@ -110,6 +110,7 @@ pub fn worker(cfg: &WorkerCfg) -> Value {
         known_hits: BTreeSet<String>,
         failing: bool,
         first_fail: Option<Fail>,
+        slowest: (f64, String),
     }
     let acc = std::cell::RefCell::new(Acc {
         total: Stats::default(),
@@ -122,6 +123,7 @@ pub fn worker(cfg: &WorkerCfg) -> Value {
         known_hits: BTreeSet::new(),
         failing: false,
         first_fail: None,
+        slowest: (0.0, String::new()),
     });
     let prop = cfg.prop;
     let big = cfg.thorough;
@@ -131,8 +133,13 @@ pub fn worker(cfg: &WorkerCfg) -> Value {
         if let Some(p) = &current {
             let _ = std::fs::write(p, serde_json::to_string(&case).unwrap_or_default());
         }
+        let t0 = std::time::Instant::now();
         let out = run_case(&case, big);
+        let dt = t0.elapsed().as_secs_f64();
         let mut a = acc.borrow_mut();
+        if dt > a.slowest.0 {
+            a.slowest = (dt, case.render(30));
+        }
         if !a.failing {
             a.evaluations += 1;
             a.total.merge(&out.stats);
@@ -169,7 +176,7 @@ pub fn worker(cfg: &WorkerCfg) -> Value {
         }
         Ok(())
     });
-    let Acc { total, evaluations, nontrivial, samples, first_nt, foreign, foreign_n, known_hits, first_fail, .. } = acc.into_inner();
+    let Acc { total, evaluations, nontrivial, samples, first_nt, foreign, foreign_n, known_hits, first_fail, slowest, .. } = acc.into_inner();
     let mut violation = Value::Null;
     if let Err(e) = result {
         match e {
@@ -202,6 +209,8 @@ pub fn worker(cfg: &WorkerCfg) -> Value {
         "foreign_examples": foreign,
         "known_hits": known_hits.into_iter().collect::<Vec<_>>(),
         "violation": violation,
+        "slowest_case_seconds_diagnostic": slowest.0,
+        "slowest_case_diagnostic": slowest.1,
     })
 }
 
